@@ -309,6 +309,10 @@ func c11Worker(tier Tier) int {
 			uni.SysCall(uni.B0, vmcommon.BuiltInFunctionESDTFreeze, uni.S1), uni.SysCall(uni.B0, vmcommon.BuiltInFunctionESDTWipe, uni.S1))
 		for _, a := range probes {
 			checkTotal(e, env, w, a, "aliased-destination")
+			// the same with the return-after-error flag (a same-shard return executes with it)
+			f := a
+			f.ReturnAfterError = true
+			checkTotal(e, env, w, f, "aliased-destination")
 		}
 	}
 	ws[0].Sample(map[string]interface{}{"function": "MultiESDTNFTTransfer", "caller=recipient": "a0", "args": []string{hex.EncodeToString(uni.B0), "5555555555555556", "46"}, "expect": "error (count wraps 3n+2 to 4), no panic"})
@@ -435,6 +439,14 @@ func c11Worker(tier Tier) int {
 			// emitted; it is not hand-made)
 			checkTotal(e, env, b.W, b.Act, "catalogue:"+b.Name)
 			return
+		}
+		// the same call a second time on the state the first one left (second claim of nothing,
+		// second hand-over, second delete ...)
+		if post, legs := env.Step(b.W, b.Act); len(legs) > 0 && legs[0].OK() && post != b.W {
+			checkTotal(e, env, post, b.Act, "catalogue:"+b.Name+"(repeated)")
+			if third, l2 := env.Step(post, b.Act); len(l2) > 0 && l2[0].OK() && third != post {
+				checkTotal(e, env, third, b.Act, "catalogue:"+b.Name+"(repeated twice)")
+			}
 		}
 		for extra := 0; extra <= 40; extra++ {
 			for _, filler := range [][]byte{[]byte("f"), {}} {
